@@ -2,6 +2,7 @@ package proch
 
 import (
 	"context"
+	"runtime"
 
 	"github.com/alephium/wormhole-fork/node/pkg/common"
 	"github.com/alephium/wormhole-fork/node/pkg/processor"
@@ -35,8 +36,26 @@ func runIgnore(g quiesce.Goroutine) bool {
 }
 
 func (rn *RunNode) quiesce() {
-	if _, ok := quiesce.Wait(quiesce.Options{Ignore: runIgnore, Activity: vtime.Activity}); !ok {
-		ev.Broken("processor Run loop does not become quiescent")
+	for spins := 0; ; spins++ {
+		gs, ok := quiesce.Wait(quiesce.Options{Ignore: runIgnore, Activity: vtime.Activity})
+		if !ok {
+			ev.Broken("processor Run loop does not become quiescent")
+		}
+		// a handler that is parked INSIDE a store call is waiting for the store's own goroutines (which are not
+		// goroutines of interest): the reaction is not over, whatever it does after the store is still to come
+		inStore := false
+		for _, g := range gs {
+			if g.Has("pkg/processor.") && (g.Has("pkg/db.") || g.Has("badger")) {
+				inStore = true
+			}
+		}
+		if !inStore {
+			return
+		}
+		if spins > 2_000_000 {
+			ev.Broken("processor Run loop stays inside a store call")
+		}
+		runtime.Gosched()
 	}
 }
 
